@@ -166,6 +166,96 @@ static SPIN_HOOK: AtomicUsize = AtomicUsize::new(0);
 
 thread_local! {
     static BYPASS: Cell<u32> = const { Cell::new(0) };
+    /// set by `reset`: this OS thread executes a simulated run (shuttle tasks are coroutines on
+    /// the same thread). Sleeps and clock reads of such a thread are simulated.
+    static SIMULATED: Cell<bool> = const { Cell::new(false) };
+    /// the simulated clock of this thread, in nanoseconds since its reset
+    static SIM_CLOCK_NS: Cell<u64> = const { Cell::new(0) };
+}
+/// sleeps executed as simulated time (evidence: a change that adds a back-off or a timeout
+/// must not slow the simulation down or make it depend on the machine)
+static SIM_SLEEPS: AtomicU64 = AtomicU64::new(0);
+static SIM_SLEPT_NS: AtomicU64 = AtomicU64::new(0);
+
+pub fn simulated_sleeps() -> (u64, u64) {
+    (SIM_SLEEPS.load(Ordering::SeqCst), SIM_SLEPT_NS.load(Ordering::SeqCst))
+}
+
+fn on_sim_thread() -> bool {
+    SIMULATED.with(|s| s.get()) && !bypassed()
+}
+
+fn sim_now_ns() -> u64 {
+    // every reading advances the clock a little, so that polling loops with a deadline end
+    SIM_CLOCK_NS.with(|c| {
+        c.set(c.get() + 1_000);
+        c.get()
+    })
+}
+
+fn sim_sleep_ns(ns: u64) {
+    SIM_SLEEPS.fetch_add(1, Ordering::SeqCst);
+    SIM_SLEPT_NS.fetch_add(ns, Ordering::SeqCst);
+    SIM_CLOCK_NS.with(|c| c.set(c.get().saturating_add(ns)));
+    // a sleeping task lets the others run: a yield request under the scheduler
+    spin_wait();
+}
+
+const SIM_EPOCH_S: i64 = 1_700_000_000;
+
+/// Time is simulated on threads that execute a run: a sleep costs nothing and advances that
+/// thread's clock, which `clock_gettime` then reports. jammdb itself has no timers; this seam
+/// exists so that a change that introduces one (a back-off, a lock timeout) stays inside
+/// the simulation.
+#[no_mangle]
+pub unsafe extern "C" fn nanosleep(req: *const libc::timespec, rem: *mut libc::timespec) -> c_int {
+    if !on_sim_thread() || req.is_null() {
+        return libc::syscall(libc::SYS_nanosleep, req, rem) as c_int;
+    }
+    let r = &*req;
+    sim_sleep_ns((r.tv_sec.max(0) as u64).saturating_mul(1_000_000_000).saturating_add(r.tv_nsec.max(0) as u64));
+    0
+}
+
+#[no_mangle]
+pub unsafe extern "C" fn clock_nanosleep(clk: libc::clockid_t, flags: c_int, req: *const libc::timespec, rem: *mut libc::timespec) -> c_int {
+    if !on_sim_thread() || req.is_null() {
+        // returns the error number, not -1
+        let r = libc::syscall(libc::SYS_clock_nanosleep, clk, flags, req, rem);
+        return if r == 0 { 0 } else { *libc::__errno_location() };
+    }
+    let r = &*req;
+    let mut ns = (r.tv_sec.max(0) as u64).saturating_mul(1_000_000_000).saturating_add(r.tv_nsec.max(0) as u64);
+    if flags & libc::TIMER_ABSTIME != 0 {
+        let epoch = if clk == libc::CLOCK_REALTIME { SIM_EPOCH_S as u64 * 1_000_000_000 } else { 0 };
+        let now = SIM_CLOCK_NS.with(|c| c.get()) + epoch;
+        ns = ns.saturating_sub(now);
+    }
+    sim_sleep_ns(ns);
+    0
+}
+
+#[no_mangle]
+pub unsafe extern "C" fn usleep(us: c_uint) -> c_int {
+    if !on_sim_thread() {
+        let ts = libc::timespec { tv_sec: (us / 1_000_000) as _, tv_nsec: ((us % 1_000_000) * 1000) as _ };
+        return libc::syscall(libc::SYS_nanosleep, &ts as *const libc::timespec, std::ptr::null_mut::<libc::timespec>()) as c_int;
+    }
+    sim_sleep_ns(us as u64 * 1000);
+    0
+}
+
+#[no_mangle]
+pub unsafe extern "C" fn clock_gettime(clk: libc::clockid_t, ts: *mut libc::timespec) -> c_int {
+    let simulated = matches!(clk, libc::CLOCK_MONOTONIC | libc::CLOCK_REALTIME | libc::CLOCK_BOOTTIME | libc::CLOCK_MONOTONIC_RAW | libc::CLOCK_MONOTONIC_COARSE | libc::CLOCK_REALTIME_COARSE);
+    if !on_sim_thread() || !simulated || ts.is_null() {
+        return libc::syscall(libc::SYS_clock_gettime, clk, ts) as c_int;
+    }
+    let ns = sim_now_ns();
+    let epoch = if matches!(clk, libc::CLOCK_REALTIME | libc::CLOCK_REALTIME_COARSE) { SIM_EPOCH_S } else { 0 };
+    (*ts).tv_sec = (epoch + (ns / 1_000_000_000) as i64) as _;
+    (*ts).tv_nsec = (ns % 1_000_000_000) as _;
+    0
 }
 
 fn with<R>(f: impl FnOnce(&mut Sim) -> R) -> R {
@@ -235,6 +325,8 @@ pub fn reset(prefix: &str, hash_seed: u64) {
     });
     RNG.store(hash_seed, Ordering::SeqCst);
     ACTIVE.store(true, Ordering::SeqCst);
+    SIMULATED.with(|x| x.set(true));
+    SIM_CLOCK_NS.with(|c| c.set(0));
 }
 
 pub fn set_hash_seed(seed: u64) {
